@@ -789,7 +789,7 @@ def gen_struct(rng, big):
             for ln in {0, size - 1, size, size + 1, 2 * size - 1, 2 * size}:
                 yield SEP.join(["C18", "unpack", e + c, hexwire(bytes(rng.getrandbits(8) for _ in range(ln)))])
     # multi-code formats
-    for _ in range(30000 if big else 2600):
+    for _ in range(30000 if big else 5000):
         e = rng.choice(ENDIANS)
         parts, vals, specs = [], [], []
         for _ in range(rng.randint(1, 6 if rng.random() < 0.9 else 12)):
@@ -825,7 +825,7 @@ def gen_interp(rng, big):
                 bytes([1] + [0] * (nbytes - 1)), bytes([0] * (nbytes - 1) + [1]), bytes(range(0xf0, 0xf0 + nbytes))]
         for p in pats:
             yield SEP.join(["C18", "interp", bits_of_bytes(p)])
-        for _ in range(1200 if big else 260):
+        for _ in range(1200 if big else 400):
             yield SEP.join(["C18", "interp", bits_of_bytes(bytes(rng.getrandbits(8) for _ in range(nbytes)))])
     if big:
         for v in range(1 << 16):
@@ -941,7 +941,7 @@ def gen_bswap(rng, big):
                         if not rep and not _valid_norepeat(n, fm, a, b):
                             continue
                         yield SEP.join(["C18", "bswap", rng.choice(MUTABLE), wire(bits), _fmt_wire(fm), sv(a), sv(b), "1" if rep else "0"])
-    for _ in range(20000 if big else 2500):
+    for _ in range(20000 if big else 5000):
         n = rng.choice([8, 16, 24, 32, 40, 48, 56, 64, 64, 72, 80, 128]) + rng.choice([0, 0, 0, 1, 4, 7])
         bits = rand_bits(rng, n)
         r = rng.random()
